@@ -62,7 +62,11 @@ def run(facts, rep, tier):
         v = io.payload("Some") if isinstance(io, EnumV) and io.may("Some") else None
         if v is None or v.bits is None:
             rep.oblige(False, ("addr", df))
-            rep.add(Finding("R03.1", "address of DF%d not bit-exact" % df, "DF%d: address value %r has no exact bit form" % (df, v), None))
+            if df in AP_FORMATS:
+                n3 += 1
+            rep.add(Finding("R03.1" if df in AA_FORMATS else "R03.3", "address of DF%d not bit-exact" % df,
+                            "DF%d: address value %r has no exact bit form (not provably %s)" % (
+                                df, v, "the AA field" if df in AA_FORMATS else "AP xor CRC-24 of the data bits"), None))
             continue
         bad = None
         for k in range(24):
